@@ -2,7 +2,7 @@
    lines whose reading by the reference grammar reader, from any panel and any tracker state,
    yields exactly the panel the messages themselves describe. *)
 From RP Require Import Lib.Base Lib.Sexp Lib.Strings Lib.TrimSpace Model.Gfx Model.Flatten Model.MsgIn Model.EncIn
-  Spec.DenoteIn Spec.GrammarIn Proofs.GfxNum Proofs.StringsProofs Proofs.InBits Proofs.InEncLines Proofs.InEncText.
+  Spec.DenoteIn Spec.GrammarIn Proofs.GfxNum Proofs.StringsProofs Proofs.InBits Proofs.InEncLines Proofs.InEncText Proofs.InEncGfx.
 From Coq Require Import String ZifyBool.
 Open Scope string_scope.
 Open Scope list_scope.
@@ -48,12 +48,21 @@ Section EncSound.
     apply (state_line js jm ncp "HWCt#" val_text); [lookup|lookup|exact Hi|exact N|exact V].
   Qed.
 
-  Lemma state_id_seg s i : rep_state s = true -> s_gfx s = None -> is_u32 i = true ->
+  Lemma gfx_seg i g : is_u32 i = true -> rep_gfx g = true ->
+    seg (if gfx_is_empty g then [] else gfx_lines (to_gfx g) i)
+        (map (EState [i]) (if gfx_is_empty g then [] else [UGfx (den_image g)])).
+  Proof.
+    intros Hi R. destruct (gfx_is_empty g); [apply seg_nil|]. split.
+    - apply gfx_lines_wf; assumption.
+    - intros p x. exists None. rewrite (gfx_run js jm ncp g i R Hi p x). reflexivity.
+  Qed.
+
+  Lemma state_id_seg s i : rep_state s = true -> is_u32 i = true ->
     seg (state_id_lines json_enc s i) (map (EState [i]) (state_upds s)).
   Proof.
-    intros R G Hi. unfold rep_state in R. do 6 (apply andb_true_iff in R; destruct R as [R ?]).
-    unfold state_id_lines, state_upds. rewrite G.
-    destruct (s_proc s); [discriminate|]. rewrite !app_nil_r. cbn [app]. rewrite !map_app.
+    intros R Hi. unfold rep_state in R. do 6 (apply andb_true_iff in R; destruct R as [R ?]).
+    unfold state_id_lines, state_upds.
+    destruct (s_proc s); [discriminate|]. rewrite !app_nil_r. rewrite !map_app.
     apply seg_app.
     { destruct (s_mode s) as [m|]; [|apply seg_nil]. apply seg_one, mode_line; assumption. }
     apply seg_app.
@@ -62,12 +71,14 @@ Section EncSound.
     { destruct (s_ext s) as [x|]; [|apply seg_nil]. apply seg_one, ext_line; assumption. }
     apply seg_app.
     { destruct (s_text s) as [t|]; [|apply seg_nil]. apply text_seg; assumption. }
+    apply seg_app.
+    { destruct (s_gfx s) as [g|]; [|apply seg_nil]. apply gfx_seg; assumption. }
     destruct (s_adc s) as [b|]; [|apply seg_nil]. apply seg_one, adc_line; assumption.
   Qed.
 
-  Lemma state_seg s : rep_state s = true -> s_gfx s = None -> seg (state_lines json_enc s) (den_state s).
+  Lemma state_seg s : rep_state s = true -> seg (state_lines json_enc s) (den_state s).
   Proof.
-    intros R G. unfold state_lines, den_state.
+    intros R. unfold state_lines, den_state.
     assert (Hids : forallb is_u32 (s_ids s) = true).
     { unfold rep_state in R. do 6 (apply andb_true_iff in R; destruct R as [R ?]). exact R. }
     induction (s_ids s) as [|i r IH]; [apply seg_nil|]. cbn [forallb] in Hids.
@@ -75,16 +86,15 @@ Section EncSound.
     apply seg_app; [apply state_id_seg; assumption|apply IH; exact Hr].
   Qed.
 
-  Lemma states_seg l : forallb (rep_some rep_state) l = true -> forallb no_gfx_state l = true ->
+  Lemma states_seg l : forallb (rep_some rep_state) l = true ->
     exists ls, states_lines json_enc l = Ok ls /\ seg ls (flat_map (opt_effs den_state) l).
   Proof.
-    induction l as [|o r IH]; intros R G; cbn [states_lines flat_map].
+    induction l as [|o r IH]; intros R; cbn [states_lines flat_map].
     - exists []. split; [reflexivity|apply seg_nil].
-    - cbn [forallb] in R, G. apply andb_true_iff in R. destruct R as [Ro Rr].
-      apply andb_true_iff in G. destruct G as [Go Gr].
-      destruct o as [s|]; [|discriminate]. destruct (IH Rr Gr) as (ls & -> & S). cbn [bind].
+    - cbn [forallb] in R. apply andb_true_iff in R. destruct R as [Ro Rr].
+      destruct o as [s|]; [|discriminate]. destruct (IH Rr) as (ls & -> & S). cbn [bind].
       eexists. split; [reflexivity|]. cbn [opt_effs]. apply seg_app; [|exact S].
-      apply state_seg; [exact Ro|]. cbn in Go. destruct (s_gfx s); [discriminate|reflexivity].
+      apply state_seg. exact Ro.
   Qed.
 
   Lemma regs_seg l : forallb (rep_some rep_reg) l = true ->
@@ -98,37 +108,36 @@ Section EncSound.
       apply reg_seg. exact Ro.
   Qed.
 
-  Lemma msg_seg m : rep_msg olt nok m = true -> no_gfx_msg m = true ->
+  Lemma msg_seg m : rep_msg olt nok m = true ->
     exists ls, enc_in_msg json_enc nc_print m = Ok ls /\ seg ls (den_in m).
   Proof.
-    intros R G. unfold rep_msg in R. do 2 (apply andb_true_iff in R; destruct R as [R ?]).
+    intros R. unfold rep_msg in R. do 2 (apply andb_true_iff in R; destruct R as [R ?]).
     unfold enc_in_msg, den_in.
-    destruct (states_seg _ H0 G) as (sl & -> & SS). destruct (regs_seg _ H) as (rl & -> & RS). cbn [bind].
+    destruct (states_seg _ H0) as (sl & -> & SS). destruct (regs_seg _ H) as (rl & -> & RS). cbn [bind].
     eexists. split; [reflexivity|]. rewrite <- app_assoc.
     apply seg_app; [apply flow_seg|]. apply seg_app; [|apply seg_app; assumption].
     destruct (im_cmd m) as [c|]; [|apply seg_nil]. cbn [opt_effs].
     apply (cmd_seg js jm ncp nc_print olt nok olt_ok nok_ok). exact R.
   Qed.
 
-  Lemma msgs_seg ms : forallb (rep_msg olt nok) ms = true -> forallb no_gfx_msg ms = true ->
+  Lemma msgs_seg ms : forallb (rep_msg olt nok) ms = true ->
     exists ls, enc_in_raw json_enc nc_print ms = Ok ls /\ seg ls (den_msgs ms).
   Proof.
-    induction ms as [|m r IH]; intros R G; cbn [enc_in_raw].
+    induction ms as [|m r IH]; intros R; cbn [enc_in_raw].
     - exists []. split; [reflexivity|apply seg_nil].
-    - cbn [forallb] in R, G. apply andb_true_iff in R. destruct R as [Rm Rr].
-      apply andb_true_iff in G. destruct G as [Gm Gr].
-      destruct (msg_seg m Rm Gm) as (a & -> & Sa). destruct (IH Rr Gr) as (b & -> & Sb). cbn [bind].
+    - cbn [forallb] in R. apply andb_true_iff in R. destruct R as [Rm Rr].
+      destruct (msg_seg m Rm) as (a & -> & Sa). destruct (IH Rr) as (b & -> & Sb). cbn [bind].
       eexists. split; [reflexivity|]. unfold den_msgs. cbn [flat_map]. apply seg_app; assumption.
   Qed.
 
-  (* graphics sub-messages excluded (no_gfx_msg); everything else of the representable domain *)
-  Theorem enc_in_sound_nogfx : forall ms p x,
-    forallb (rep_msg olt nok) ms = true -> forallb no_gfx_msg ms = true ->
+  (* C01: the whole ASCII-representable domain, graphics included *)
+  Theorem enc_in_sound : forall ms p x,
+    forallb (rep_msg olt nok) ms = true ->
     exists ls, enc_in json_enc nc_print ms = Ok ls /\
-               Forall (fun l => effs_line js jm ncp l = true) ls /\
+               Forall (fun l => wf_in_line js jm ncp l = true) ls /\
                fst (sem (p, x) ls) = run_msgs p ms.
   Proof.
-    intros ms p x R G. destruct (msgs_seg ms R G) as (ls & E & [W S]).
+    intros ms p x R. destruct (msgs_seg ms R) as (ls & E & [W S]).
     assert (N : Forall (fun l => nolf l = true) ls).
     { revert W. apply Forall_impl. intros l. apply wf_line_nolf. }
     unfold enc_in. rewrite E. cbn [bind]. rewrite (one_lines_nolf ls N).
